@@ -858,11 +858,14 @@ def _resolve_action_conflicts(
             for head in ordered_heads:
                 if head == picked_head:
                     continue
+                competing_flow_state = get_flow_state_from_head(state, head)
+                if not is_active_flow(competing_flow_state):
+                    # The flow was aborted as the child of a flow that lost against the winner
+                    continue
                 competing_element = get_flow_config_from_head(state, head).elements[
                     head.position
                 ]
                 assert isinstance(competing_element, SpecOp)
-                competing_flow_state = get_flow_state_from_head(state, head)
                 competing_event = get_event_from_element(
                     state, competing_flow_state, competing_element
                 )
